@@ -28,6 +28,7 @@ import core
 from ser import rat
 
 LEAN_MODULE = "Optyx.Props.C06b"
+EXTRA_MODULES = ["Optyx.Props.PinsC06"]   # transcription anchors (harness/source_pins.py)
 THEOREMS = [
     "Optyx.Props.C06.pass_optimal_feasible",
     "Optyx.Props.C06.scipy_optimal_feasible",
@@ -40,6 +41,7 @@ THEOREMS = [
     "Optyx.Props.Glue.lpGlue_text",
     "Optyx.Props.Dispatch.solve_autoSelect_eq_generated",
     "Optyx.Props.Dispatch.solve_route_eq_generated",
+    "Optyx.Props.PinsC06.anchors",
 ]
 ASSUMPTIONS = [
     "solver results are finite: NaN / ±inf inside result.x or result.fun are outside the rational model",
